@@ -49,6 +49,7 @@ def confirm_q2(cfg, rp, kinds, extra):
 
 
 CONFIRM = {Q1: confirm, Q2: confirm_q2}
+LEFTOVERS = True     # WAITING / PENDING entries left by a run that was killed are part of the initial-environment alphabet
 NAMES = ['WAITING', 'PENDING', 'DONE', 'FAILED', 'SKIPPED']
 
 
@@ -95,7 +96,8 @@ def init_arbitrary_final(prod):
     old = lambda i: props.payload_code(prod, i, 'old')     # noqa
     for i in range(prod.cfg.n):
         st = p[f'v{i}_status']
-        ent = z3.And(p[f'h{i}_status'], z3.Or(st == props.DONE, st == props.FAILED, st == props.SKIPPED),
+        ent = z3.And(p[f'h{i}_status'], z3.Or(st == props.DONE, st == props.FAILED, st == props.SKIPPED,
+                                              *([st == props.WAITING, st == props.PENDING] if LEFTOVERS else [])),
                      z3.Implies(p[f'h{i}_result'], p[f'v{i}_result'] == old(i)),
                      p[f'v{i}_start_clock'] >= 0, p[f'v{i}_end_clock'] >= p[f'v{i}_start_clock'],
                      p[f'v{i}_end_clock'] < p['clk'], p[f'h{i}_start_clock'] == p[f'h{i}_end_clock'])
